@@ -173,7 +173,7 @@ VARIABLES cfg, log, pc,
           incEof,    \* incoming.write_eof() was called
           sockEof,   \* the peer closed its side (recv returns b"" once nothing is in flight)
           outgoing,  \* messages in the `outgoing` BIO: ch | fin | alert | data (n plaintext bytes)
-          hs,        \* handshake stage: 0 nothing sent, 1 ClientHello out, 2 done
+          hs,        \* handshake stage: 0 nothing sent, 1 ClientHello out, 2 done (3: the engine has hit a ragged EOF)
           pend,      \* decrypted, not yet delivered plaintext of the current record: <<lo, hi>> (offsets)
           taken,     \* plaintext offset up to which the engine has handed bytes to SSLTransport
           mfbuf,     \* bytes the BufferedReader of makefile() holds: <<lo, hi>>
@@ -312,8 +312,13 @@ WriteCall ==
     /\ Came("ret", cur.want)
     /\ UNCHANGED <<hs, incFull, pend, taken, rxClosed, txClosed>>
 
+\* (on a ragged EOF OpenSSL queues a fatal alert in `outgoing`; _ssl_io_loop re-raises without flushing, so the
+\*  alert only leaves with the flush of some later call)
 ReadCall ==
-    /\ UNCHANGED <<outgoing, hs, txClosed, cliSent>>
+    /\ UNCHANGED <<txClosed, cliSent>>
+    /\ LET eofNow == cur.want # 0 /\ pend[1] = pend[2] /\ incFull = <<>> /\ ~rxClosed /\ incEof IN
+       /\ outgoing' = IF eofNow /\ hs = 2 THEN Append(outgoing, Msg("fatal", 0)) ELSE outgoing
+       /\ hs' = IF eofNow THEN 3 ELSE hs
     /\ IF cur.want = 0 THEN UNCHANGED <<incFull, pend, taken, rxClosed>> /\ Came("ret", 0)   \* read(0): nothing to do
        ELSE IF pend[1] < pend[2]                                          \* rest of the current record
             THEN LET k == IF cur.want < pend[2] - pend[1] THEN cur.want ELSE pend[2] - pend[1] IN
@@ -325,7 +330,8 @@ ReadCall ==
                  /\ incFull' = Tail(incFull) /\ pend' = <<r.lo + k, r.lo + r.p>> /\ taken' = taken + k
                  /\ rxClosed' = rxClosed /\ Came("ret", k)
        ELSE IF incFull # <<>> /\ Head(incFull).kind = "alert"             \* close_notify
-            THEN incFull' = Tail(incFull) /\ rxClosed' = TRUE /\ UNCHANGED <<pend, taken>> /\ Came("ret", 0)
+            THEN /\ incFull' = Tail(incFull) /\ rxClosed' = TRUE /\ UNCHANGED <<pend, taken>>
+                 /\ IF txClosed THEN Came("zero", 0) ELSE Came("ret", 0)     \* our own close_notify already out
        ELSE IF rxClosed /\ txClosed                                   \* both directions shut down: SSL_ERROR_ZERO_RETURN
             THEN UNCHANGED <<incFull, pend, taken, rxClosed>> /\ Came("zero", 0)
        ELSE IF rxClosed THEN UNCHANGED <<incFull, pend, taken, rxClosed>> /\ Came("ret", 0)
@@ -480,7 +486,7 @@ Spec == Init /\ [][Next]_vars
 (* What TLC checks on the model (stage 1)                                                      *)
 
 TypeOK == /\ pc \in {"start", "idle", "call", "flush", "recv", "return", "done"}
-          /\ hs \in 0..2 /\ pend[1] <= pend[2] /\ taken <= srvWritten /\ srvGot <= cliSent /\ tmo <= MaxTimeouts
+          /\ hs \in 0..3 /\ pend[1] <= pend[2] /\ taken <= srvWritten /\ srvGot <= cliSent /\ tmo <= MaxTimeouts
           /\ wpart >= 0 /\ closed \in 0..1
 
 \* the log grows by at most three events per step and Off_ at i reads only log[1..i]
